@@ -6,7 +6,7 @@ CONSTANTS
  MaxCrashes = 1
  InlineAt = 0
  Interval = 2
- MBs = {0,1,80,200}
+ MBs = {0,9,80,200}
  FixRestore = TRUE
  FixPublish = TRUE
  FixMonotone = TRUE
